@@ -243,4 +243,10 @@ example : decode .date [0, 31, 2, 99] = .err := by decide
 example : decode .time [0, 0xF7, 59, 59] = .ok (.time 7 23 59 59) := by decide
 example : decode .varstr [0] = .err := by decide
 
+/-- every registered type's Pack / Unpack was recognised as one of the modelled shapes (regenerated
+    table): the theorems above speak about the code that is there -/
+theorem shapes_recognised :
+    Knx.Gen.shapes.all (fun p => match p.2 with | .unknown _ => false | _ => true) = true := by
+  decide +kernel
+
 end Props.C08
